@@ -20,14 +20,25 @@ def main():
     except core.TooManyViolations:
         rc = core.CURRENT.finish()
     except core.MachineryError as e:
-        print("MACHINERY-FAILURE %s: %s" % (a.pid, e))
-        rc = 2
+        rc = late_failure(a.pid, "%s" % e)
     except Exception:
         traceback.print_exc()
-        print("MACHINERY-FAILURE %s: unexpected exception in harness" % a.pid)
-        rc = 2
+        rc = late_failure(a.pid, "unexpected exception in harness")
     sys.stdout.flush()
     os._exit(rc)
+
+
+def late_failure(pid, what):
+    """The harness cannot go on.  If the run had ALREADY recorded violations of the property, they stand (a change that breaks the property
+    often breaks the harness's assumptions a little later too): the run finishes with them and the failure is kept as a note.  Otherwise it
+    is a machinery failure (exit 2)."""
+    run = getattr(core, "CURRENT", None)
+    if run is not None and getattr(run, "violations", None):
+        run.notes["machinery_failure_after_violations"] = what[:600]
+        print("NOTE %s: harness stopped after recording violations: %s" % (pid, what.splitlines()[0][:200]))
+        return run.finish()
+    print("MACHINERY-FAILURE %s: %s" % (pid, what))
+    return 2
 
 
 if __name__ == "__main__":
